@@ -1,14 +1,65 @@
 from driver import Job
 
+# Registered types per harness package (zz_verif_c18_test.go of that package). Each gets a
+# floor on the number of values that went through O1-O3, so the evidence shows every type ran.
+_TYPES = {
+    "types": ["Transaction", "Header", "ProposedHeader", "EmptyBlockHeader", "Block", "Body", "Vote", "BlockCert",
+              "BlockProposal", "ProofProposal", "Flip", "PublicFlipKey", "PrivateFlipKeysPackage", "TxReceipts",
+              "TxReceipt", "SavedTransaction", "BurntCoins", "ActivityMonitor", "TransactionIndex", "TxReceiptIndex",
+              "SavedEvent", "UpgradeVotes"],
+    "state": ["Account", "Identity", "ApprovedIdentity", "Global", "IdentityStatusSwitch", "DelegationSwitch",
+              "DelayedPenalties", "BurntCoins", "IdentityStateDiff"],
+    "snapshot": ["Manifest"],
+    "attachments": ["ShortAnswerAttachment", "LongAnswerAttachment", "FlipSubmitAttachment", "OnlineStatusAttachment",
+                    "BurnAttachment", "ChangeProfileAttachment", "DeleteFlipAttachment", "CallContractAttachment",
+                    "DeployContractAttachment", "TerminateContractAttachment", "StoreToIpfsAttachment"],
+    "protocol": ["Msg", "handshakeData", "pushPullHash", "updateShardId", "msgBatch", "disconnect", "blockRange"],
+    "flip": ["IpfsFlip"],
+    "profile": ["Profile"],
+    "mempool": ["keysArray"],
+    "deferredtx": ["DeferredTxs"],
+}
+_SIGNED = ["Transaction", "Vote", "BlockProposal", "ProofProposal", "PublicFlipKey", "PrivateFlipKeysPackage"]
+
+_floors = {
+    # structural coverage (counted by shard 0 of each job only, so the sums are per-tree constants)
+    "types_covered": sum(len(v) for v in _TYPES.values()),  # 54
+    "o4_field_classes": 420,   # distinct (type, field-class) pairs whose single-field mutation was executed (428 on the pinned tree)
+    "o5_types_covered": len(_SIGNED),
+    "o5_field_classes": 60,    # distinct (signed type, field-class) pairs whose mutation broke the signature (62 on the pinned tree)
+    # volume
+    "o4_mutations": (60000, 2000000),
+    "o5_mutations": (2000, 40000),
+    "hash_checks": (20000, 500000),
+    "cert_compress_checks": (200, 5000),
+    "mode_zero": 54, "mode_full": 1000, "mode_max": 300, "mode_rand": 3000, "mode_sparse": 2000,
+}
+for _pkg, _names in _TYPES.items():
+    for _n in _names:
+        _floors["values_%s.%s" % (_pkg, _n)] = (500, 10000)
+for _n in _SIGNED:
+    _floors["o5_signed_types.%s" % _n] = (30, 500)
+
 SPEC = {
     "engine": "E2",
     "level": "exploration",
-    "technique": "reflection-driven round-trip / field-sensitivity / signature-binding monitor on the real encoders",
-    "level_text": "tmp",
-    "level_note": "tmp",
-    "rule": "tmp",
+    "technique": "reflection-driven round-trip, single-field-mutation and signer-recovery monitor on the real "
+                 "ToBytes/FromBytes/Hash/Sign/Sender functions",
+    "level_text": "For generated values of every encodable type (zero, fully populated, maximal, sparse and random incl. "
+                  "nil/empty/edge values) the real encoders and decoders are executed and compared with themselves: "
+                  "decode(encode(x)) equals x, re-encoding is byte-identical, hashes are unchanged, every single-field change "
+                  "changes the encoding, every single-field change of a signed object changes the recovered signer. "
+                  "Held on the values generated, not a proof over all values.",
+    "level_note": "trusted: the reflection flattener/cloner/mutator (verifutil/fill.go), the per-package transient tables "
+                  "(reviewed against the code, printed in the evidence under info.transient_*), the normalisations listed in "
+                  "the assumptions; the three generated protobuf request messages of package protocol have no hand-written "
+                  "mapping and are not covered",
+    "rule": "case = one value of one registered type put through the real encoder and decoder (base values, their "
+            "single-field mutants, and tampered signed objects); distinct_nontrivial = distinct (type, set of populated "
+            "field classes) pairs among the base values with at least one populated field",
+    "parallel": 12,
     "jobs": [
-        Job("types", "blockchain/types", "^TestVerifC18Codec$", shards=(1, 4), timeout=(600, 3000)),
+        Job("types", "blockchain/types", "^TestVerifC18Codec$", shards=(1, 6), timeout=(600, 3000)),
         Job("state", "core/state", "^TestVerifC18Codec$", shards=(1, 4), timeout=(600, 3000)),
         Job("snapshot", "core/state/snapshot", "^TestVerifC18Codec$", shards=(1, 1), timeout=(600, 3000)),
         Job("attachments", "blockchain/attachments", "^TestVerifC18Codec$", shards=(1, 2), timeout=(600, 3000)),
@@ -18,6 +69,14 @@ SPEC = {
         Job("mempool", "core/mempool", "^TestVerifC18Codec$", shards=(1, 1), timeout=(600, 3000)),
         Job("deferredtx", "deferredtx", "^TestVerifC18Codec$", shards=(1, 1), timeout=(600, 3000)),
     ],
-    "floors": {},
-    "assumptions": [],
+    "floors": _floors,
+    "assumptions": [
+        "normalisation: nil slice/map == empty slice/map; nil *big.Int == 0; time.Time compared as Unix seconds; error compared by message (nil == \"\")",
+        "big.Int values are non-negative (amounts; the encodings carry magnitudes only); a value whose encoder returns an error (observed only for strings that are not valid UTF-8, which protobuf refuses) is counted as encode_refused and not evaluated further",
+        "elements of slices/maps of pointers are never nil (every encoder dereferences them); pointer *fields* are generated nil and non-nil",
+        "state.Global: ShardsNum <= 8 and ShardSizes keyed 1..ShardsNum (ToBytes emits one size per shard); missing size == 0",
+        "types.BlockProposal: nil Block == empty Block (both invalid proposals; the decoder always allocates Block)",
+        "types.UpgradeVotes: encoded in Go map order (node-local tally, never hashed): O2 is evaluated on the decoded value and the length",
+        "signature recovery on a tampered object that fails with an error counts as 'invalidated'",
+    ],
 }
